@@ -457,6 +457,8 @@ def make_strategy_classes():
                 self.trades_known.append(trade)
             else:
                 trade = self.trades_known[tr]
+                if t.get("live_only", True) and trade.status.name == "COMPLETE":
+                    return None  # adding an order to a completed trade is outside the explored domain
             ot = t.get("ot", "L")
             if ot == "L":
                 kw = {}
@@ -505,6 +507,9 @@ def make_strategy_classes():
                 if k == "P":
                     t = act[1]
                     order = self.make_order(market, t)
+                    if order is None:
+                        self.log.append((mi, tick, act, "notrade"))
+                        return "notrade"
                     if pre:
                         w.safe(pre, w, self, market, act, order)
                     kw = dict(market_version=self._mv(market, t.get("mv")), force=bool(t.get("force")))
